@@ -36,6 +36,9 @@ def near_misses(src: str, rng):
         out.append(("del_stmt", "\n".join(lines[:i + 1] + [f"{pad}del {name}"] + lines[i + 1:])))
         out.append(("try_stmt", "\n".join(lines[:i] + [f"{pad}try:", "    " + lines[i], f"{pad}except Exception:", f"{pad}    {name} = a"] + lines[i + 1:])))
         out.append(("undefined_name", "\n".join(lines[:i] + [f"{pad}{name} = undefined_q + 1"] + lines[i + 1:])))
+        # two versions of the standard opset in one body (session 6, seeded C02-m13): "every domain is imported with a single version"
+        out.append(("two_opset_versions", "\n".join(["from onnxscript import opset17 as op17"] + lines[:i + 1]
+                                                     + [f"{pad}{name} = op17.Add({name}, {name})"] + lines[i + 1:])))
     loops = [i for i in body_idx if lines[i].strip().startswith("for ")]
     if loops:
         i = rng.choice(loops)
@@ -46,6 +49,7 @@ def near_misses(src: str, rng):
     if whiles:
         i = rng.choice(whiles)
         out.append(("while_on_expression", "\n".join(lines[:i] + [re.sub(r"while (\w+):", r"while \1 > 0:", lines[i])] + lines[i + 1:])))
+    rng.shuffle(out)        # the quick tier keeps the first two: every kind gets its share
     return out
 
 
